@@ -7,7 +7,7 @@ LEAN_MODULES = ["ViaProofs.C13"]
 LEMMA_MODULES = ['ViaProofs.ConnLemmas', 'ViaProofs.Trans.ENC']
 REQUIRED_THEOREMS = ['Via.C13', 'Via.C13_refuse_when_blank']
 LEVEL = "proof"
-LEVEL_TEXT = ('PROOF for every header string, status, reason and length that a response the library agrees to send has exactly one empty line, at the end, and that a string which would introduce one (or is not a sequence of terminated lines) is refused; are_headers_split and tx_response::is_valid as translated from the current source are proved equal to the model's (Trans/ENC); correspondence exhaustive over short strings and over operation histories on one reused tx_response; the refusal is also exercised through every send overload of the real http_connection for GET and HEAD.')
+LEVEL_TEXT = ('PROOF for every header string, status, reason and length that a response the library agrees to send has exactly one empty line, at the end, and that a string which would introduce one (or is not a sequence of terminated lines) is refused; are_headers_split and tx_response::is_valid as translated from the current source are proved equal to those of the model (Trans/ENC); correspondence exhaustive over short strings and over operation histories on one reused tx_response; the refusal is also exercised through every send overload of the real http_connection for GET and HEAD.')
 RULE = ("every header string over {CR,LF,'a',':'} up to a length bound (exhaustive) plus random strings over all bytes, "
         "each through tx_response::is_valid/message with status 200/204/100 and through add_header(name,value); "
         "a case is non-trivial when the string contains CR or LF; distinct = distinct (string, status, path); plus the send paths of the "
